@@ -4,13 +4,13 @@
    Init -> Start(rpc, variant, plan) -> Deliver* into the cases the Go harness executes. *)
 EXTENDS Renter, Json
 
-St(r, v, p, ps, o, b) == [rpc |-> r, variant |-> v, plan |-> p, pos |-> ps, outcome |-> o, bound |-> b]   \* (wire is constantly TRUE in the model)
+St(r, v, k, p, ps, o, b) == [rpc |-> r, variant |-> v, samekey |-> k, plan |-> p, pos |-> ps, outcome |-> o, bound |-> b]   \* (wire is constantly TRUE in the model)
 
 EmitEdge ==
-    PrintT("EDGE " \o ToJson([from |-> St(rpc, variant, plan, pos, outcome, bound),
+    PrintT("EDGE " \o ToJson([from |-> St(rpc, variant, samekey, plan, pos, outcome, bound),
                               act |-> act',
                               reply |-> [outcome |-> outcome', bound |-> bound'],
-                              to |-> St(rpc', variant', plan', pos', outcome', bound')]))
+                              to |-> St(rpc', variant', samekey', plan', pos', outcome', bound')]))
 
 \* selftest deviations (function-valued constants cannot be written in a .cfg)
 DevSig  == {<<"AppendSectors", "HostSignature">>}
